@@ -34,6 +34,7 @@ type C18Op struct {
 	Path  string   `json:"path"`
 	Name  string   `json:"name,omitempty"`
 	Index int      `json:"index,omitempty"`
+	Dest  int      `json:"dest,omitempty"`  // move: destination index (Index is the source)
 	Value *ResSpec `json:"value,omitempty"` // nil: nil argument
 	Note  string   `json:"note,omitempty"`  // generator's intent (informational + fault accounting)
 	API   string   `json:"api"`             // pkg: package-level function (compiles each time) | expr: shared compiled expression
@@ -242,7 +243,7 @@ func (e *c18Exec) runOp(oc *opCtx, res fhir.Resource, op *C18Op, value fhir.Base
 		case "replace":
 			r.err = patch.Replace(res, op.Path, value, copts...)
 		case "move":
-			r.err = patch.Move(res, op.Path, op.Index, op.Index+1, copts...)
+			r.err = patch.Move(res, op.Path, op.Index, op.Dest, copts...)
 		default:
 			r.err = fmt.Errorf("harness: unknown op %q", op.Op)
 		}
@@ -273,7 +274,7 @@ func (e *c18Exec) runOp(oc *opCtx, res fhir.Resource, op *C18Op, value fhir.Base
 	case "replace":
 		r.err = x.Replace(res, value, eopts...)
 	case "move":
-		r.err = x.Move(res, op.Index, op.Index+1, eopts...)
+		r.err = x.Move(res, op.Index, op.Dest, eopts...)
 	default:
 		r.err = fmt.Errorf("harness: unknown op %q", op.Op)
 	}
@@ -317,6 +318,9 @@ func (e *c18Exec) stepOp(r *runCtx, oc *opCtx, in *inputs, res fhir.Resource, ci
 	}
 	if op.Op == "insert" {
 		where += fmt.Sprintf(", index=%d", op.Index)
+	}
+	if op.Op == "move" {
+		where += fmt.Sprintf(", %d -> %d", op.Index, op.Dest)
 	}
 	where += fmt.Sprintf(") [api=%s note=%s]", op.API, op.Note)
 
@@ -628,6 +632,10 @@ func (e *c18Exec) stepOp(r *runCtx, oc *opCtx, in *inputs, res fhir.Resource, ci
 	if len(sel.items) == 1 && sel.located[0] && sel.locs[0].wrapped {
 		st.probe("choice-target")
 	}
+	// structural invariant: a resource is a tree - no element is reachable at two places
+	if a, b, shared := sharedNode(res); shared {
+		e.violate("patch-model", "aliased-elements", ctxt()+fmt.Sprintf("\n  after the operation the same element object sits at two places of the resource (%s and %s): changing one will change the other", a, b))
+	}
 	return "ok:" + digest(string(afterBytes))
 }
 
@@ -710,6 +718,66 @@ func canonAny(m proto.Message) proto.Message {
 	}
 	walk(out.ProtoReflect())
 	return out
+}
+
+// sharedNode reports two places of the tree that hold the very same message object.
+func sharedNode(root proto.Message) (string, string, bool) {
+	seen := map[proto.Message]string{}
+	var a, b string
+	found := false
+	var walk func(m protoreflect.Message, path string)
+	walk = func(m protoreflect.Message, path string) {
+		if found || m.Descriptor().FullName() == "google.protobuf.Any" {
+			return
+		}
+		fs := m.Descriptor().Fields()
+		for i := 0; i < fs.Len() && !found; i++ {
+			fd := fs.Get(i)
+			if fd.Kind() != protoreflect.MessageKind || !m.Has(fd) {
+				continue
+			}
+			visit := func(c protoreflect.Message, p string) {
+				if prev, dup := seen[c.Interface()]; dup {
+					a, b, found = prev, p, true
+					return
+				}
+				seen[c.Interface()] = p
+				walk(c, p)
+			}
+			if fd.IsList() {
+				l := m.Get(fd).List()
+				for j := 0; j < l.Len() && !found; j++ {
+					visit(l.Get(j).Message(), fmt.Sprintf("%s/%s[%d]", path, fd.Name(), j))
+				}
+			} else {
+				visit(m.Get(fd).Message(), path+"/"+string(fd.Name()))
+			}
+		}
+	}
+	walk(root.ProtoReflect(), "")
+	return a, b, found
+}
+
+// sharedAcross reports an element object reachable from two different resources.
+func sharedAcross(roots []fhir.Resource) (int, int, string, bool) {
+	owner := map[proto.Message]int{}
+	for i, r := range roots {
+		hit, where := -1, ""
+		walkMessages(r.ProtoReflect(), func(x protoreflect.Message) {
+			if hit >= 0 || x.Interface() == proto.Message(r) {
+				return
+			}
+			if o, ok := owner[x.Interface()]; ok && o != i {
+				hit, where = o, string(x.Descriptor().Name())
+				return
+			}
+			owner[x.Interface()] = i
+		})
+		if hit >= 0 {
+			return hit, i, where, true
+		}
+	}
+	return 0, 0, "", false
 }
 
 func errKind(err error) string {
@@ -937,6 +1005,9 @@ func execC18(t *testing.T, c *Case) *Verdict {
 			v.Stats.Switches += sc.switches
 			v.Stats.Faults = addN(v.Stats.Faults, "preempt", sc.switches)
 			v.Stats.probeN("two-clients-inside-same-node", sc.overlapNode)
+		}
+		if a, b, what, shared := sharedAcross(private); shared && len(v.Violations) == 0 {
+			e.violate("patch-model", "aliased-across-resources", fmt.Sprintf("after the histories, the resources of client %d and client %d hold the very same %s object: patching one resource will change the other", a, b, what))
 		}
 		for ci := range outs {
 			e.out = append(e.out, strings.Join(outs[ci], "|"))
